@@ -244,3 +244,11 @@ func Get(h Handler, rawURL string, watchdog time.Duration) (*Req, State) {
 	q := Start(h, rawURL, nil)
 	return q, q.Wait(0, watchdog)
 }
+
+// SetReqEventHook installs (or replaces) the per-request hook observer. The observer runs in
+// the request's goroutine, possibly with gohlslib locks held.
+func SetReqEventHook(q *Req, f func(point string)) {
+	q.mu.Lock()
+	q.onEvent = f
+	q.mu.Unlock()
+}
